@@ -14,6 +14,12 @@ use scnr::{
 };
 use serde_json::{json, Map, Value};
 
+mod c08;
+mod c13;
+mod c15;
+mod c16;
+mod c17;
+mod c18;
 mod extra;
 
 pub const PANIC_CODE: u64 = 999_999;
@@ -150,7 +156,7 @@ pub fn build(modes: &[ScannerMode], cached: bool) -> (Option<Scanner>, &'static 
 // ---------------------------------------------------------------------------------------------
 // leaves of the pattern ASTs and their observed semantics
 
-fn collect_leaves(ast: &Value, out: &mut BTreeSet<String>) {
+pub fn collect_leaves(ast: &Value, out: &mut BTreeSet<String>) {
     match ast["k"].as_str().unwrap_or("") {
         "lit" | "dot" | "cls_unicode" | "cls_perl" | "cls_bracketed" => {
             out.insert(ast["s"].as_str().unwrap().to_string());
@@ -165,10 +171,10 @@ fn collect_leaves(ast: &Value, out: &mut BTreeSet<String>) {
     }
 }
 
-type LeafCache = Mutex<HashMap<String, Option<Arc<Scanner>>>>;
+pub type LeafCache = Mutex<HashMap<String, Option<Arc<Scanner>>>>;
 
 /// The scanner with the single pattern `leaf` (None if it does not build).
-fn leaf_scanner(cache: &LeafCache, leaf: &str) -> Option<Arc<Scanner>> {
+pub fn leaf_scanner(cache: &LeafCache, leaf: &str) -> Option<Arc<Scanner>> {
     if let Some(s) = cache.lock().unwrap().get(leaf) {
         return s.clone();
     }
@@ -180,7 +186,7 @@ fn leaf_scanner(cache: &LeafCache, leaf: &str) -> Option<Arc<Scanner>> {
 }
 
 /// Does the one-pattern scanner of the leaf match the single character c?
-fn leaf_matches(s: &Scanner, c: char) -> bool {
+pub fn leaf_matches(s: &Scanner, c: char) -> bool {
     let mut buf = [0u8; 4];
     let text: &str = c.encode_utf8(&mut buf);
     let mut it = s.find_iter(text);
@@ -190,11 +196,11 @@ fn leaf_matches(s: &Scanner, c: char) -> bool {
 // ---------------------------------------------------------------------------------------------
 // the scan job
 
-fn enc_match(m: &scnr::Match) -> Vec<u64> {
+pub fn enc_match(m: &scnr::Match) -> Vec<u64> {
     vec![m.token_type() as u64, m.start() as u64, m.end() as u64]
 }
 
-fn run_ops(scanner: &Scanner, input: &str, ops: &[Value], with_positions: bool) -> Vec<Vec<u64>> {
+pub fn run_ops(scanner: &Scanner, input: &str, ops: &[Value], with_positions: bool) -> Vec<Vec<u64>> {
     let mut outs: Vec<Vec<u64>> = Vec::new();
     let r = catch_unwind(AssertUnwindSafe(|| {
         if with_positions {
@@ -300,7 +306,7 @@ fn run_ops(scanner: &Scanner, input: &str, ops: &[Value], with_positions: bool) 
     outs
 }
 
-fn distinct_chars(job: &Value) -> Vec<char> {
+pub fn distinct_chars(job: &Value) -> Vec<char> {
     let mut set: BTreeSet<char> = BTreeSet::new();
     if let Some(s) = job.get("input").and_then(|i| i.as_str()) {
         set.extend(s.chars());
@@ -321,7 +327,7 @@ fn distinct_chars(job: &Value) -> Vec<char> {
 }
 
 /// ASTs of all patterns and lookaheads of a configuration as the crate parses them.
-fn asts_of(modes_json: &Value) -> (Value, BTreeSet<String>) {
+pub fn asts_of(modes_json: &Value) -> (Value, BTreeSet<String>) {
     let mut leaves = BTreeSet::new();
     let mut per_mode = Vec::new();
     for m in modes_json.as_array().unwrap() {
@@ -441,7 +447,7 @@ type BitsetCache = Mutex<HashMap<String, Option<Arc<Vec<u64>>>>>;
 static LEAF_BITS: std::sync::LazyLock<BitsetCache> = std::sync::LazyLock::new(|| Mutex::new(HashMap::new()));
 
 /// Membership of every scalar value in the one-pattern scanner of a leaf (cached per leaf text).
-fn leaf_bitset(leaf_cache: &LeafCache, leaf: &str) -> Option<Arc<Vec<u64>>> {
+pub fn leaf_bitset(leaf_cache: &LeafCache, leaf: &str) -> Option<Arc<Vec<u64>>> {
     if let Some(b) = LEAF_BITS.lock().unwrap().get(leaf) {
         return b.clone();
     }
